@@ -59,7 +59,11 @@ func ParseRdb(reader io.Reader, rbytes *atomic.Int64, size int, options ...RdbPa
 					pipe <- entry
 				} else {
 					if RdbVersion > 2 {
-						if err := l.Footer(); err != nil {
+						err := l.Footer()
+						if err == nil {
+							err = l.End()
+						}
+						if err != nil {
 							pipe <- &BinEntry{
 								Err: errors.Join(common.ErrCorrupted, fmt.Errorf("parse rdb checksum error : %w", err)),
 							}
